@@ -22,9 +22,10 @@ use ciphercore_base::mpc::verif_hooks::{compile_graph_to_mpc, private_and_reshar
 use serde_json::json;
 
 /// operation families of the mirrored fragment (names of progen.rs)
-pub const DEEP_OPS: [&str; 24] = [
+pub const DEEP_OPS: [&str; 35] = [
     "add", "add", "sub", "mul", "mul", "mul", "dot", "matmul", "gemm", "sum", "cumsum", "get", "getslice",
     "reshape", "permute", "stack", "concat", "constant", "zeros", "ones", "tuple", "tuple", "tupleget", "tupleget",
+    "vector", "vector", "named", "namedget", "namedget", "vectorget", "vectorget", "zip", "repeat", "a2v", "v2a",
 ];
 /// additive / bilinear / share-wise unary operations (the fragment of C01_deep_compile_correct_partial)
 pub const DEEP_THEOREM_OPS: [&str; 18] = [
@@ -33,23 +34,16 @@ pub const DEEP_THEOREM_OPS: [&str; 18] = [
 ];
 /// product-heavy programs: private x private products feeding products, so that the planner reshapes
 /// its plan (ensure_dependencies_are_reshared, sanity_pass) and reshare blocks are emitted
-pub const DEEP_MUL_OPS: [&str; 14] = [
-    "mul", "mul", "mul", "mul", "mul", "add", "sub", "sum", "permute", "matmul", "dot", "getslice", "tuple", "get",
+pub const DEEP_MUL_OPS: [&str; 18] = [
+    "mul", "mul", "mul", "mul", "mul", "mul", "add", "sub", "sum", "permute", "matmul", "dot", "getslice", "tuple", "get", "vector",
+    "named", "a2v",
 ];
 
-fn ty_simple(t: &Type) -> bool {
-    match t {
-        Type::Scalar(_) | Type::Array(_, _) => true,
-        Type::Tuple(ts) => ts.iter().all(|t| ty_simple(t)),
-        _ => false,
-    }
-}
 /// Rust twin of `mpc_mirrored` (Model/MpcCompile.v); the Coq side re-checks it in every case
 fn mirrored(g: &Graph) -> bool {
     g.get_nodes().iter().all(|n| {
-        let op = n.get_operation();
-        let op_ok = !matches!(
-            op,
+        !matches!(
+            n.get_operation(),
             Operation::MixedMultiply
                 | Operation::Truncate(_)
                 | Operation::A2B
@@ -58,20 +52,7 @@ fn mirrored(g: &Graph) -> bool {
                 | Operation::JoinWithColumnMasks(_, _)
                 | Operation::ApplyPermutation(_)
                 | Operation::Sort(_)
-                | Operation::ArrayToVector
-                | Operation::VectorToArray
-                | Operation::NamedTupleGet(_)
-                | Operation::CreateNamedTuple(_)
-                | Operation::CreateVector(_)
-                | Operation::VectorGet
-                | Operation::Zip
-                | Operation::Repeat(_)
-        );
-        let opt_ok = match &op {
-            Operation::Input(t) | Operation::Zeros(t) | Operation::Ones(t) | Operation::Reshape(t) | Operation::Constant(t, _) => ty_simple(t),
-            _ => true,
-        };
-        op_ok && opt_ok && ty_simple(&n.get_type().unwrap())
+        )
     })
 }
 
